@@ -116,6 +116,20 @@ Theorem C06_intake_never_blocked : forall inp s, reachable inp s -> shut s = fal
 Proof. intros inp s R. apply intake. now apply reachable_Inv. Qed.
 Print Assumptions C06_intake_never_blocked.
 
+(** Requests are served concurrently: a request inside handle that is not (or no longer) in a
+    backend call is answered by steps of the server code alone - its own and those of the current
+    holder of sendMu finishing its frame - no matter how many other requests of the connection
+    are blocked inside the backend, and no backend call has to return for it. *)
+Theorem C06_nonblocking : forall inp s i w t r, reachable inp s ->
+  pc s i = RRun w -> nth_error inp i = Some (FReq t KOp) ->
+  exists ls s', forallb progress_label ls = true /\ run inp ls s = Some s' /\ pc s' i = RDone r /\ In (i, r) (replies s').
+Proof.
+  intros inp s i w t r R Hp Hf. pose proof (reachable_Inv inp s R) as I.
+  destruct (op_completes inp s i w t r I Hp Hf) as (ls & s' & H1 & H2 & H3).
+  exists ls, s'. repeat split; auto. apply (I_rep inp s' (run_Inv inp ls s s' I H2)). exact H3.
+Qed.
+Print Assumptions C06_nonblocking.
+
 (** ClearTag's panic("unused tag cleared") is unreachable. *)
 Theorem C06_cleartag_never_panics : forall inp s i r, reachable inp s -> pc s i = RRet r ->
   exists s', exec inp (LClear i) s = Some s'.
